@@ -245,6 +245,37 @@ def _pos_const(ctx, fi, a):
         return False
 
 
+def _renaming(table_text, actual_text):
+    """{name in table_text: name in actual_text} if the two statements are equal up to a consistent renaming of plain
+    names (attributes, constants and structure must agree), else None"""
+    try:
+        a, b = ast.parse(table_text), ast.parse(actual_text)
+    except SyntaxError:
+        return None
+    ren = {}
+    rev = {}
+    na, nb = list(ast.walk(a)), list(ast.walk(b))
+    if len(na) != len(nb):
+        return None
+    for x, y in zip(na, nb):
+        if type(x) is not type(y):
+            return None
+        if isinstance(x, ast.Name):
+            if x.id == 'self' or y.id == 'self':
+                if x.id != y.id:
+                    return None
+                continue
+            if ren.setdefault(x.id, y.id) != y.id or rev.setdefault(y.id, x.id) != x.id:
+                return None
+        elif isinstance(x, ast.Attribute):
+            if x.attr != y.attr:
+                return None
+        elif isinstance(x, ast.Constant):
+            if x.value != y.value:
+                return None
+    return ren
+
+
 def check_counter(ctx, fi, g, loop, head, ent, nonneg_funcs):
     var = ent['var']
     ups = _updates(loop, var)
@@ -256,6 +287,16 @@ def check_counter(ctx, fi, g, loop, head, ent, nonneg_funcs):
     for st, op, step in ups:
         txt = norm(st)
         why = prog.get(txt)
+        if why is None:
+            # the same statement with its locals renamed: match by shape and carry the renaming into the reason
+            for k, w in prog.items():
+                ren = _renaming(k, txt)
+                if ren is not None and ren.get(var, var) == var:
+                    why = w
+                    if why.startswith('guard:'):
+                        import re as _re
+                        why = 'guard:' + _re.sub(r'\b(%s)\b' % '|'.join(map(_re.escape, ren)), lambda m_: ren[m_.group(1)], why[6:]) if ren else why
+                    break
         if why is None:
             problems.append('update `%s` of the loop counter is not classified' % txt)
             continue
@@ -357,7 +398,8 @@ def check_counter(ctx, fi, g, loop, head, ent, nonneg_funcs):
     if '?' in dirs or len(dirs - {'?'}) > 1:
         problems.append('the counter %s is moved in both directions / reassigned inside the loop' % var)
     for txt in prog:
-        if txt not in [norm(s) for s, _, _ in ups]:
+        actual = [norm(s) for s, _, _ in ups]
+        if txt not in actual and not any(_renaming(txt, a) is not None for a in actual):
             problems.append('table entry `%s` no longer present (anchor)' % txt)
     if not problems and not _cycle_must_pass(ctx, fi, g, head, positive_nodes):
         problems.append('a cycle of the loop does not pass any update of `%s` with a proven positive step' % var)
@@ -586,6 +628,24 @@ def term(ctx):
                     # an alternative branch that does not consume but hands the loop test a value that ends it (reason in the table)
                     nodes += [n for n in g.nodes if head in n.loops and n.kind == 'stmt' and n.stmt is not None and norm(n.stmt) == term_]
                 probs = [] if nodes and _cycle_must_pass(ctx, fi, g, head, nodes) else ['a cycle does not pass `%s`' % what]
+            elif idiom == 'chain-walk':
+                # while x.A is not None: x = x.A   - follows a chain that only this code extends, at its end, with a
+                # record that is being added (table: reason); re-verified: the shape of the loop, and that every
+                # non-None writer of A assigns a parameter object of the writing function to the end of such a walk
+                v, a = ent['var'], ent['attr']
+                ups = [n for n in g.nodes if head in n.loops and n.kind == 'stmt' and isinstance(n.ast, ast.Assign)
+                       and norm(n.ast) == '%s = %s.%s' % (v, v, a)]
+                probs = []
+                if norm(loop.test) != '%s.%s is not None' % (v, a) or not ups or not _cycle_must_pass(ctx, fi, g, head, ups):
+                    probs.append('not the `while x.%s is not None: x = x.%s` walk' % (a, a))
+                from .. import effects
+                for w in effects.writers_of(ctx, ent['class'], a):
+                    if isinstance(w.value, ast.Constant) and w.value.value is None:
+                        continue
+                    params = [p.lstrip('*') for p in w.fi.params]
+                    if not (isinstance(w.value, ast.Name) and w.value.id in params and w.fi.qual in ent['writers']):
+                        probs.append('%s.%s is also written by %s (`%s`): the chain is no longer only extended with the record being added' % (
+                            ent['class'], a, w.fi.qual, norm(w.stmt)[:60]))
             elif idiom == 'not-image-driven':
                 probs = _check_not_image_driven(ctx, R, fi)
             else:
